@@ -239,6 +239,9 @@ func TestVerif_C01(t *testing.T) {
 			{name: "always/2x(do,do)", callers: [][]string{{"do", "do"}, {"do", "do"}}, always: true},
 			{name: "flow/2x(do,do)", callers: [][]string{{"do", "do"}, {"do", "do"}}, flow: true},
 			{name: "flow/docancel+do,do", callers: [][]string{{"docancel"}, {"do", "do"}}, flow: true},
+			{name: "flow/always/multi2,do,do,multi2,do", callers: [][]string{{"multi2", "do", "do", "multi2", "do"}}, flow: true, always: true},
+			{name: "flow/always/multi2,do|do,multi2", callers: [][]string{{"multi2", "do"}, {"do", "multi2"}}, flow: true, always: true},
+			{name: "always/multi2,do,do,multi2,do", callers: [][]string{{"multi2", "do", "do", "multi2", "do"}}, always: true},
 			{name: "flow/3xdo", callers: [][]string{{"do"}, {"do"}, {"do"}}, flow: true},
 			{name: "resp2/2x(do,do)", callers: [][]string{{"do", "do"}, {"do", "do"}}, resp2: true},
 			{name: "resp2/recv+do", callers: [][]string{{"recv"}, {"do"}}, resp2: true},
